@@ -80,7 +80,7 @@ theorem reschedule_recorded {s s' : RState} {id : Nat} {r : SchedReason}
     closed -/
 theorem pubrel_nothing_recorded {s s' : RState} {id : Nat} {cid : String} {pkid : Nat} {fl fl' : Flags}
     {c : Conn} (hc : getConn s id = some c) (hrec : c.acks.recorded = [])
-    (h : handlePacket s id cid (.pubrel pkid false) fl = .ok (s', fl')) :
+    (h : handlePacket s id cid (.pubrel pkid hp) fl = .ok (s', fl')) :
     s'.datalog = s.datalog ∧ s'.ghost = s.ghost ++ [.committed id (.pubcomp pkid)] ∧ fl'.disconnect = true := by
   unfold handlePacket at h
   simp only [hc, hrec, Except.ok.injEq, Prod.mk.injEq] at h
@@ -93,7 +93,7 @@ theorem pubrel_nothing_recorded {s s' : RState} {id : Nat} {cid : String} {pkid 
     per filter index returned by `matches`; if it fails nothing is accepted. -/
 theorem pubrel_forwards_oldest_recorded {s s' : RState} {id : Nat} {cid : String} {pkid : Nat} {fl fl' : Flags}
     {c : Conn} {p : Pub} {rest : List Pub} (hc : getConn s id = some c) (hrec : c.acks.recorded = p :: rest)
-    (h : handlePacket s id cid (.pubrel pkid false) fl = .ok (s', fl')) :
+    (h : handlePacket s id cid (.pubrel pkid hp) fl = .ok (s', fl')) :
     recordedOf s' id = some rest ∧
     ∃ evs, s'.ghost = s.ghost ++ [.committed id (.pubcomp pkid)] ++ evs ∧
       ((fl'.disconnect = true ∧ evs = [] ∧ s'.datalog = s.datalog) ∨
